@@ -788,8 +788,11 @@ func (loc *Location) ListRules(ctx *Context, includeInherited bool) ([]string, e
 			case string, map[string]interface{}:
 				acc = append(acc, srs.Id)
 			default:
-				err = fmt.Errorf("Wanted a string but got %v (%T)", rule, rule)
-				break
+				// A fact that has something else under
+				// "rule" (AddFact takes {"rule":5}) is no
+				// rule.  It is not listed; that is no
+				// reason not to list the rules.
+				Log(WARN, ctx, "Location.ListRules", "location", loc.Name, "id", srs.Id, "notARule", fmt.Sprintf("%v (%T)", rule, rule))
 			}
 		}
 	}
